@@ -22,6 +22,7 @@ C06 = {
         "pure/family=imageblk", "pure/family=neuronjson", "pure/family=labelsz",
         "hist/create-after-delete", "hist/recreate-same-name-same-type", "hist/recreate-same-name-other-type",
         "hist/reopen-after-delete", "hist/rename", "hist/repos=2",
+        "hist/delete-repo", "hist/delete-repo-while-other-repo-holds-data",
         "hist/type=keyvalue", "hist/type=roi", "hist/type=annotation", "hist/type=uint8blk",
         # full-strength classes (the DeleteAll and MaxInstanceID findings are fixed in /repo, nothing is steered around):
         "pure/inst=max", "hist/delete-nonempty-instance", "hist/delete-instance-with>=50-keys",
@@ -35,6 +36,7 @@ C06 = {
         "instance deletion is driven through the RPC command 'repo <uuid> delete <name>' (server.VerifRPC shim; there is no HTTP route) and is awaited by polling the repo's instance listing: the purge runs before the instance leaves the listing (repoT.deleteData)",
         "'no keys remain after a deletion' is asserted from the interface documentation of OrderedKeyValueSetter.DeleteAll ('removes all key-value pairs for the context')",
         "while the DeleteAll finding is listed as known, generated deletions only hit instances without stored keys (the generator keeps data away from instances it deletes later; altered cases are counted as excluded)",
+        "repo deletion is driven through the RPC command 'repos delete <root>' (two-repo cases only; the instance ids of the two repos interleave because instances are created slot by slot across repos); its purge goroutines give no completion signal, so the check waits up to 20 s for the key range of each deleted instance to become empty and does not judge leftovers of one that is not (counter repo_delete_purge_not_finished_in_20s); the other repo's instances must keep their raw keys and reads",
         "close/reopen uses datastore.CloseReopenTest (the upstream persistence-test helper); package-level caches survive it, only the datastore metadata is reloaded",
     ],
 }
